@@ -54,7 +54,7 @@ Definition C01_full_statement : Prop :=
    on the model of the FIXED code -- t follows the change of the checksummed c. *)
 Example C01_F1_history_now_correct :
   let mk deps st p := {| s_deps := deps; s_ifcreate := []; s_always := false; s_stamp := st;
-                         s_out := ODollar3; s_payload := p; s_cat := true; s_exit := 0%Z |} in
+                         s_out := ODollar3; s_payload := p; s_cat := true; s_exit := 0%Z; s_tol := false |} in
   let s := [115] in let c := [99] in let t := [116] in
   let h := [SWrite s [1]; SWriteDo (c ++ b_do) (mk [s] true 10); SWriteDo (t ++ b_do) (mk [c] false 20);
             SCmd (CIfChange false [t]); SWrite s [2]; SCmd (CIfChange false [t])] in
